@@ -4,7 +4,11 @@ from ..rules import tree
 ID = 'C01'
 TECHNIQUE = ('AST class-graph analysis: visitor-dispatch resolution, child-list completeness, all-paths-return check; '
              'UNPACK: symbolic run of the sequence-unpacking emitters over affine list views (symbolic target count, star position and loop counters), '
-             'emitted C text kept with placeholders and its index expressions compared as linear forms')
+             'emitted C text kept with placeholders and its index expressions compared as linear forms; '
+             'tree-builder interpreter (rules/pC01.py TB): rewriting functions / code generators are run by an interpreter of the checker on symbolic nodes (unknown node '
+             'facts fork both ways) and the built tree / recorded C skeleton is given a reference semantics that is evaluated over the COMPLETE finite domain of its tests '
+             '(MINMAX: all outcomes of the pairwise comparisons; INPLACE: all kinds of target operands; SKEL: all truth assignments and loop-body outcomes); '
+             'RESTORE: path-sensitive pairing (save / change / write back) over every visitor method; PARSEROLE: parse order of locals vs the role order of the grammar production')
 DECIDES = ('T1: every attribute a node class drives through a tree phase is listed in its child_attrs/subexprs; '
            'T2: every listed child is a defined attribute; V1: every visit_<Class> handler of every tree visitor names an existing node class '
            '(dispatch is by class name); V2: every transform handler returns a node on all paths (None deletes the node); '
@@ -12,9 +16,29 @@ DECIDES = ('T1: every attribute a node class drives through a tree phase is list
            'UNPACK: in SequenceNode.generate_*: every emitted item fetch for the target at position p reads index p (or SIZE-(N-p) from the end of the '
            'container whose size SIZE is), elements of the parallel lists args / unpacked_items / coerced_unpacked_items only meet with equal indices, the size guard '
            'before from-the-end fetches and the slice trimming the starred list both use the number of trailing targets, and the generic iterator '
-           'unpacker is only handed front parts of unpacked_items.')
+           'unpacker is only handed front parts of unpacked_items; '
+           'MINMAX: the conditional cascade built for min()/max() with 2..4 arguments (positional or one display) evaluates every argument once in order, compares '
+           '`item OP best` with the operands on CPython\'s sides and returns the same argument for EVERY outcome of the comparisons; '
+           'INPLACE: the tree built by ExpandInplaceOperators for `target OP= rhs`, for every kind of target (name / subscript / attribute) and operand (name / expression, '
+           'Python object / C typed): index operands and Python-object operand expressions are evaluated once and before rhs, operand expressions in source order, one load '
+           'before and one store after rhs, every temporary bound (the operand positions that FAIL on the unmodified tree - plain names and Python-object owners of an '
+           'attribute target, FINDING_1 - are checked by C01-INPLACE-PENDING, not registered); '
+           'RESTORE: in every method of a tree visitor, an attribute of the visitor that is saved in a local and then changed is written back from that same local on every '
+           'normal path out of the method; '
+           'PARSEROLE: for every node constructor call of Parsing.py with role values held in locals (25 productions: conditional expression, binary / comparison / boolean '
+           'operators, walrus, subscripts and slices, dict items, lambda, assert, raise, if / while / try / except clauses, def, class), the locals were parsed in the order '
+           'the grammar gives to their roles; '
+           'SKEL: the C control skeleton emitted by IfStatNode/IfClauseNode, WhileStatNode, CondExprNode and BoolBinopNode/BoolBinopResultNode (1..3 clauses, with/without '
+           'else, 10 and/or shapes up to four operands, object and C operands) executes the children in the order - and yields the operand - the language reference requires, '
+           'for every truth assignment and every loop-body outcome (normal / break / continue), and every goto has a placed label.')
 NOT_DECIDED = ('that the generated C computes what CPython computes for any program.  UNPACK does not decide reference counting, the iterator protocol branch '
-               '(order is the iteration order), that left / starred / right partition the targets, nor error messages.')
+               '(order is the iteration order), that left / starred / right partition the targets, nor error messages.  The TB rules model type analysis / coercion methods '
+               '(analyse_types, coerce_to, ...) as returning a node that evaluates the same operands, and take the evaluation order of IndexNode / AttributeNode / binop operands '
+               '(decided by C20-ORDER) as given.  SKEL decides control flow and the selected operand only - not reference counting, temps, error gotos or the conversion of '
+               'results; loops are unrolled to two iterations; ForInStatNode, try/with statements and comprehensions are not modelled.  PARSEROLE does not decide roles built from '
+               'list slices or helper results (cascaded assignments, call arguments) nor operator precedence.  Not decided at all (brainstormed mutants left unreported): which '
+               'transforms the pipeline must contain and in which order (depends on which program features occur), the closure marking protocol of MarkClosureVisitor '
+               '(which handler must propagate needs_closure), scope lookup rules of Symtab (nonlocal / global resolution).')
 MUTATIONS = [   # (file, single edit on a scratch copy, rule that reported it) â€” C01-UNPACK
     ('Cython/Compiler/ExprNodes.py', "seed C01a: generate_starred_assignment_code walks the trailing targets forwards but keeps the index len-(i+1)", 'C01-UNPACK fetch'),
     ('Cython/Compiler/ExprNodes.py', "generate_starred_assignment_code: PyList_GET_ITEM(.., len-(i+1)) -> len-i", 'C01-UNPACK fetch'),
@@ -28,9 +52,22 @@ MUTATIONS = [   # (file, single edit on a scratch copy, rule that reported it) â
     ('behaviour-preserving (all silent)',
      "reversed(x) instead of x[::-1]; trailing targets walked forwards with the index len-(n_right-k), renamed locals and an f-string; "
      "`for pos in range(len(self.unpacked_items)): item = self.unpacked_items[pos]` instead of enumerate", 'silent'),
+    # fourth round: every mutant below is stored with its patch and outcome under mutants/C01/<name>/ (replayed by the thorough tier)
+    ('Cython/Compiler/Optimize.py', "seed C01c / minmax-*: cascade compares `best OP item`; min passes '>'; operator + '='; cascade from the last argument", 'C01-MINMAX'),
+    ('Cython/Compiler/ParseTreeTransforms.py', "seed C01d / inplace-*: index name not captured; let_ref_nodes not reversed; temporary not returned for binding", 'C01-INPLACE'),
+    ('Cython/Compiler/ParseTreeTransforms.py, Optimize.py', "closure-lambda-flag-leak, restore-loop-flag, restore-nogil-early-return, qualname-restore-swapped", 'C01-RESTORE'),
+    ('Cython/Compiler/Parsing.py', "parse-{condexpr,binop,dictitem,walrus,assert,raise,while-else,cmp}-swap", 'C01-PARSEROLE'),
+    ('Cython/Compiler/ExprNodes.py, Nodes.py', "condexpr-gen-swap, boolop-{sense-flip,operator-flip,labels-not-restored}, if-else-fallthrough, ifclause-goto-condition, "
+                                               "while-{cond-negation,else-after-break,continue-label}", 'C01-SKEL'),
+    ('not reported (declined)', "pipeline-drop-decorators, pipeline-closure-order, closure-mark-lambda, nonlocal-lookup-here: see NOT_DECIDED", 'none'),
+    ('behaviour-preserving (all silent)', "ok-minmax-rewrite (helper method extracted, comprehension, reversed()), ok-inplace-rewrite (early returns, reversed()), ok-parse-rename "
+                                          "(early return, keyword order), ok-closure-restore-finally (try/finally), ok-if-goto-rewrite, ok-while-rewrite (f-string), "
+                                          "ok-condexpr-inverted (negated test with exchanged branches)", 'silent'),
 ]
 
 
 def run(ctx):
-    from ..rules import gen, keyerr, sC01
-    return [tree.rule_T1(ctx), tree.rule_T2(ctx), tree.rule_V1_visit(ctx), tree.rule_V2(ctx)] + gen.label_rules(ctx) + [keyerr.rule_keyerror_args(ctx), sC01.rule_unpack(ctx)]
+    from ..rules import gen, keyerr, sC01, pC01
+    # pC01.rule_inplace(ctx, pending=True) checks the operand positions of FINDING_1 (`a[i] += (a := x)`, `c[0].x += 1` evaluating c[0] twice)     # pending finding
+    return [tree.rule_T1(ctx), tree.rule_T2(ctx), tree.rule_V1_visit(ctx), tree.rule_V2(ctx)] + gen.label_rules(ctx) + [
+        keyerr.rule_keyerror_args(ctx), sC01.rule_unpack(ctx), pC01.rule_minmax(ctx), pC01.rule_inplace(ctx), pC01.rule_restore(ctx), pC01.rule_parserole(ctx), pC01.rule_skel(ctx)]
